@@ -182,6 +182,36 @@ def run(ctx):
     rule5_growth(ctx)
     rule6_grouping(ctx, w)
     rule7_replay(ctx)
+    rule8_descent(ctx, w)
+
+
+def rule8_descent(ctx, w):
+    ctx.doc('C19.8', 'descending into a subgraph (dr_pi_dag_node_first / dr_pi_dag_node_last / dr_pi_dag_first_leaf): the step to '
+            'node + subgraphs_begin_offset (or + subgraphs_end_offset - 1) is taken only where that node\'s range was tested non-empty, '
+            'begin < end - the one predicate the writer, the shrinking copy and the readers share for "has children" (a contracted node '
+            'has the range (0,0): stepping by 0 never terminates)')
+    c = ctx.ssa('chronological.c', area='profiler')
+    n = 0
+    for mod, name in ((w, 'dr_pi_dag_node_first'), (w, 'dr_pi_dag_node_last'), (c, 'dr_pi_dag_first_leaf')):
+        f = ctx.need_fn(mod, name)
+        steps = []
+        for g_ in f.order:
+            if g_.op != 'getelementptr' or not g_.ty.startswith('%struct.dr_pi_dag_node'):
+                continue
+            ix = [x.get('p') for x in g_.d['path'] if isinstance(x.get('p'), str)]
+            for i_ in ix:
+                for fld in ('subgraphs_begin_offset', 'subgraphs_end_offset'):
+                    for k in lib.load_terms(f, affine(f, i_), PN + fld):
+                        steps.append((g_, f.insts[k]))
+        ctx.ob('C19.8', '%s: descends by the subgraph offsets' % name, len(steps) >= 1, 'g = g + offset', loc=f.loc)
+        for g_, l in steps:
+            n += 1
+            root = f.ap(l.ops[0]).root
+            ok = any(f.edge_dominates(br.block.id, succ, g_) for br, succ in nonempty_range_guards(f, root)) and \
+                f.strip(g_.d['base']) == f.strip(root)
+            ctx.ob('C19.8', '%s: step into the subgraph only for a non-empty range' % name, ok,
+                   'begin < end is what "this node still has its children" means in a DAG file', loc=g_.loc)
+    ctx.floor('C19.8', 6)
 
 
 # life cycle of a node in the chronological replay: the event of kind K, once dequeued, schedules exactly the next one
@@ -442,12 +472,20 @@ def nonempty_range_guards(f, node_root):
         # lhs < rhs (strict) with sign +1 means begin < end on the true edge; lhs >= rhs with sign +1: on the false edge, ...
         strict_lt = (pred == 'lt' and sign == 1) or (pred == 'gt' and sign == -1)
         weak_ge = (pred == 'ge' and sign == 1) or (pred == 'le' and sign == -1)
-        for br in f.users(ic.id):
-            if br.op == 'br' and 'cond' in br.d:
+        for cond, pol in lib.cond_chain(f, ic.id, True):
+            for br, t, f_ in f.cond_edges(cond):
                 if strict_lt:
-                    out.append((br, br.d['t']))
+                    out.append((br, t if pol else f_))
                 elif weak_ge:
-                    out.append((br, br.d['f']))
+                    out.append((br, f_ if pol else t))
+        # a && b lowered to phi(false, ..., b): the true edge of a branch on the phi implies b (implication only, used as a guard)
+        if strict_lt:
+            for ph in f.users(ic.id):
+                if ph.op == 'phi' and ph.ty == 'i1' and all(
+                        (isinstance(v_, dict) and const_int(v_) == 0) or (isinstance(v_, str) and f.strip(v_) == ic.id) for v_, b_ in ph.d['incoming']):
+                    for cond, pol in lib.cond_chain(f, ph.id, True):
+                        for br, t, f_ in f.cond_edges(cond):
+                            out.append((br, t if pol else f_))
     return out
 
 
@@ -767,6 +805,10 @@ MUTANTS = [
      'edits': [(DUMP, "  G->start_clock = start_clock;\n  dr_pi_dag_init(G);", "  G->start_clock = start_clock;")]},
     {'name': 'string table used uninitialised (sweep M0061)', 'expect': 'C19.2',
      'edits': [(DUMP, "  dr_string_table st[1];\n  dr_string_table_init(st);\n  G->num_workers", "  dr_string_table st[1];\n  G->num_workers")]},
+    {'name': 'replay start descends on the node count instead of the range (seed2 C19/m3)', 'expect': 'C19.8',
+     'edits': [('src/profiler/chronological.c', "\t && g->subgraphs_begin_offset < g->subgraphs_end_offset) {\n    g = g + g->subgraphs_begin_offset;", "\t && g->info.cur_node_count > 1) {\n    g = g + g->subgraphs_begin_offset;")]},
+    {'name': 'node_last descends into an empty range', 'expect': 'C19.8',
+     'edits': [(DUMP, "\t && g->subgraphs_begin_offset < g->subgraphs_end_offset) {\n    g = g + g->subgraphs_end_offset - 1;", "\t && g->subgraphs_begin_offset <= g->subgraphs_end_offset) {\n    g = g + g->subgraphs_end_offset - 1;")]},
     {'name': 'edge pointers set before sorting', 'expect': 'C19.2',
      'edits': [(DUMP, "  dr_pi_dag_enum_edges(G_);\t   /* G_->E */\n  dr_pi_dag_sort_edges(G_);\n  dr_pi_dag_set_edge_ptrs(G_);", "  dr_pi_dag_enum_edges(G_);\t   /* G_->E */\n  dr_pi_dag_set_edge_ptrs(G_);\n  dr_pi_dag_sort_edges(G_);")]},
 ]
